@@ -22,7 +22,7 @@ from . import C03, C15
 REL = "inference/mcmc/parallel.py"
 FLOORS = {"task-exhaustive": 4, "reply-balance": 3, "kahn-discipline": 2, "swap-form": 3, "ladder-source": 1,
           "exchange-pair": 3, "equal-steps": 3, "collect-shutdown": 3,
-          "pair-disjoint": 5}
+          "pair-disjoint": 5, "state-picklable": 12}
 
 
 def worker_table(prog):
@@ -267,6 +267,11 @@ def run(prog, tier):
     c, sw = prog.method("ParallelTempering", "swap")
     obs.extend(_swap_form(prog, mi, pt, c, sw))
     obs.append(_ladder_source(prog, mi, pt, tp))
+    # whatever travels with a chain between processes must survive pickling
+    from .common import picklable_state_obligations
+    shipped = [ci_ for ci_ in prog.classes.values() if ci_.module.relpath.startswith("inference/mcmc/")
+               and ci_.name not in ("ParallelTempering", "ChainPool")]
+    obs.extend(picklable_state_obligations(prog, "state-picklable", shipped))
 
     # ---------------------------------------------------------------- pair-disjoint
     obs.extend(_pair_disjoint(prog))
